@@ -255,6 +255,10 @@ func indexIngest(repo Repo, index *types.Index, conf config.Config, locked bool)
 			dig := digest.Canonical.FromBytes(respRaw)
 			// the repo lock may be held by the caller, use the internal method
 			bc, _, err := repo.blobCreate(locked, BlobWithDigest(dig))
+			if err != nil && errors.Is(err, types.ErrReadOnly) {
+				// a read-only store cannot save a regenerated response, the repository is served without the referrers of this subject
+				continue
+			}
 			if err != nil && !errors.Is(err, types.ErrBlobExists) {
 				return mod, err
 			}
